@@ -17,6 +17,7 @@ RULE = ('one run = a seeded history of 5-40 commands over 3-12 objects (clones, 
         'catch_tell/move_or_destruct/heart_beat/command hooks that re-entrantly move, clone, destruct self/environment/sibling, '
         'raise errors; plus errors injected at a seeded instruction of a command). non-trivial = at least one destruct and one '
         'move happened; distinct = distinct abstract outcome sequence.')
+RULE += (' Later additions: ObjectHashSize as a per-run knob (1, 2, 4, 8, 64, default); virtual objects with names of 1500-2100 letters, printed with write().')
 COMPONENTS = {'real': ['src/simulate.c load_object/clone_object/move_object/destruct_object/remove_destructed_objects', 'lib/lpc/otable.c', 'lib/lpc/object.c living hash',
                        'lib/efuns (environment, all_inventory, objects, livings, find_object, present, say, command, set_heart_beat)', 'src/backend.c heart beats', 'src/comm.c'],
               'stub': ['kernel sockets/clock/timer (simulated)'],
